@@ -15,6 +15,8 @@ is infinite inside the domain; the messages say "must be >=0" while the checks (
 -/
 import EPV.Lemmas.SDRZ
 
+import EPV.Lemmas.Bridge.DetonTactics
+
 set_option linter.all false
 
 open EPV EPV.Gen
@@ -46,18 +48,21 @@ theorem sdrz_rejects_loudly (p : SDRZProfile.P) (t : ℝ) (h1 : t ≤ 1) (h : SD
 
 theorem sdrz_no_nan (p : SDRZProfile.P) (t : ℝ) (hD : 0 < p.D) (hρ : 0 < p.rho_0) (hγ : 1 < p.gamma)
     (h0 : 0 ≤ t) (h1 : t ≤ 1) : SDRZProfile.L5.WellDefined p t := by
-  have hg := SDRZ.g_eq p.D t hD.ne' h1
-  have hDD : p.D / p.D = 1 := div_self hD.ne'
-  unfold SDRZProfile.L5.WellDefined
-  rw [hg]
-  simp only [hDD, one_pow, div_one, one_mul]
+  have hD' : p.D ≠ 0 := hD.ne'
+  have hρ' : p.rho_0 ≠ 0 := hρ.ne'
+  have e0 : 0 ≤ 1 - t := by linarith
   have e1 : 0 < p.gamma - (1 - t) := by linarith
-  have e2 : 0 < 1 + (1 - t) := by linarith
+  have e1' := e1.ne'
   have e3 : 0 < p.gamma + 1 := by linarith
+  have e3' := e3.ne'
   have e4 : 0 < p.gamma := by linarith
-  refine ⟨e4.ne', by positivity, by positivity, hD.ne', e3.ne', one_ne_zero, ?_, e1.ne', by positivity, by positivity⟩
-  have : 1 - t * (2 - t) = (1 - t) ^ 2 := by ring
-  rw [this]; positivity
+  have e4' := e4.ne'
+  have hsq := sq_nonneg (1 - t)
+  unfold SDRZProfile.L5.WellDefined
+  -- g = √(1 - λ/f) = 1 - t in every side condition, whatever λ and f look like; then each condition is a
+  -- fact of the context or a sign `positivity` sees
+  (try constructorm* _ ∧ _) <;> (repeat epv_deton_sqrt_rw (1 - t)) <;>
+    first | assumption | positivity | (epv_deton_fs; first | done | positivity | nlinarith)
 
 /-- non-vacuity at the defaults -/
 example : ∃ (p : SDRZProfile.P) (t : ℝ), 0 < p.D ∧ 0 < p.rho_0 ∧ 1 < p.gamma ∧ 0 ≤ t ∧ t ≤ 1 :=
